@@ -88,7 +88,7 @@ def prune_cache(keep=3, min_age_s=3 * 3600):
 
 VARIANT_FLAGS = {
     'plain': ['-O2', '-frounding-math', '-ffp-contract=off'],
-    'o0': ['-O0', '-frounding-math', '-ffp-contract=off'],
+    'o0': ['-O0', '-frounding-math', '-ffp-contract=off', '-DVK_SLOW=1'],
     'o1': ['-O1', '-frounding-math', '-ffp-contract=off'],
     'o3': ['-O3', '-frounding-math', '-ffp-contract=off'],
     'san': ['-O1', '-g', '-fno-omit-frame-pointer', '-fsanitize=address,undefined',
